@@ -70,6 +70,8 @@ long pctChange[4]; int npct = 0;
 int rrNext = 0;
 __thread int tl_id = -1;
 
+bool g_trace = false;
+#define TRACE(...) do { if (g_trace) { fprintf(stderr, "[T%d d%ld] ", tl_id, st.decisions); fprintf(stderr, __VA_ARGS__); fprintf(stderr, "\n"); } } while (0)
 uint64_t rnd() { rs += 0x9E3779B97F4A7C15ull; uint64_t z = rs; z = (z ^ (z >> 30)) * 0xBF58476D1CE4E5B9ull; z = (z ^ (z >> 27)) * 0x94D049BB133111EBull; return z ^ (z >> 31); }
 bool chance1000(int p) { return p > 0 && (int)(rnd() % 1000) < p; }
 
@@ -95,6 +97,7 @@ void describe(char* out, size_t n) {
   size_t o = 0;
   for (int i = 0; i < nth && o + 80 < n; ++i) {
     const char* w = th[i].wait == W_MUTEX ? "mutex" : th[i].wait == W_COND ? "condition" : th[i].wait == W_SEM ? "semaphore" : th[i].wait == W_JOIN ? "join" : th[i].wait == W_SLEEP ? "sleep" : th[i].wait == W_ALL ? "end-of-run" : "-";
+    if (th[i].state == T_BLOCKED && getenv("VSCHED_DEBUG")) o += (size_t)snprintf(out + o, n - o, "[obj %p] ", th[i].obj);
     o += (size_t)snprintf(out + o, n - o, "T%d:%s%s%s ", i, th[i].state == T_RUNNABLE ? "runnable" : th[i].state == T_BLOCKED ? "blocked on " : th[i].state == T_FINISHED ? "finished" : "?", th[i].state == T_BLOCKED ? w : "", th[i].deadline >= 0 ? "(timed)" : "");
   }
 }
@@ -227,6 +230,7 @@ void unlockMutexFully(M* m, int* savedDepth) {
 
 int condWait(pthread_cond_t* c, pthread_mutex_t* mu, const struct timespec* abs) {
   int me = tl_id; C* cc = findC(c); (void)cc; M* m = findM(mu);
+  TRACE("cond_wait %p%s", (void*)c, abs ? " (timed)" : "");
   int depth = 1;
   if (m->owner == me) unlockMutexFully(m, &depth);
   th[me].state = T_BLOCKED; th[me].wait = W_COND; th[me].obj = c; th[me].timedOut = false;
@@ -235,6 +239,7 @@ int condWait(pthread_cond_t* c, pthread_mutex_t* mu, const struct timespec* abs)
   else blockHere();
   th[me].wait = W_NONE; th[me].deadline = -1;
   bool to = th[me].timedOut; th[me].timedOut = false;
+  TRACE("cond_wake %p%s", (void*)c, to ? " timeout" : "");
   lockMutex(m); m->depth = depth;
   progress();
   return to ? ETIMEDOUT : 0;
@@ -250,6 +255,7 @@ void point(const char*) { yieldPoint(false); }
 long mutexOwnerDepth(const void* mutex, int* owner) { M* m = findM(mutex, false); if (!m) { if (owner) *owner = -1; return 0; } if (owner) *owner = m->owner; return m->depth; }
 
 void run(const Config& c, void (*fn)(void*), void* arg, void (*onVerdict)(Verdict, const char*)) {
+  g_trace = getenv("VSCHED_TRACE") != nullptr;
   cfg = c; st = Stats(); rs = c.seed * 0x9E3779B97F4A7C15ull + 1; vclock = 0; g_onVerdict = onVerdict;
   nth = 0; nmx = ncv = nsm = 0; rrNext = 0; nlocs = 0;
   for (int i = 0; i < MAXT; ++i) th[i] = T();
@@ -322,7 +328,7 @@ int __wrap_pthread_mutex_init(pthread_mutex_t* m, const pthread_mutexattr_t* a) 
 int __wrap_pthread_mutex_destroy(pthread_mutex_t* m) { if (g_active) { M* mm = findM(m, false); if (mm) mm->destroyed = true; } return __real_pthread_mutex_destroy(m); }
 int __wrap_pthread_mutex_lock(pthread_mutex_t* m) {
   if (!g_active || tl_id < 0) return __real_pthread_mutex_lock(m);
-  yieldPoint(); lockMutex(findM(m)); progress(); return 0;
+  yieldPoint(); lockMutex(findM(m)); TRACE("mutex_locked %p", (void*)m); progress(); return 0;
 }
 int __wrap_pthread_mutex_trylock(pthread_mutex_t* m) {
   if (!g_active || tl_id < 0) return __real_pthread_mutex_trylock(m);
@@ -337,6 +343,7 @@ int __wrap_pthread_mutex_unlock(pthread_mutex_t* m) {
   M* mm = findM(m);
   if (mm->owner != tl_id) return EPERM;
   if (--mm->depth == 0) unlockMutexFully(mm, nullptr);
+  TRACE("mutex_unlock %p", (void*)m);
   progress(); yieldPoint();
   return 0;
 }
@@ -354,6 +361,7 @@ int __wrap_pthread_cond_signal(pthread_cond_t* c) {
   if (!g_active || tl_id < 0) return __real_pthread_cond_signal(c);
   findC(c);
   int w[MAXT], n = 0; for (int i = 0; i < nth; ++i) if (th[i].state == T_BLOCKED && th[i].wait == W_COND && th[i].obj == c) w[n++] = i;
+  TRACE("cond_signal %p waiters=%d", (void*)c, n);
   if (n) { int k = w[rnd() % (uint64_t)n]; th[k].state = T_RUNNABLE; th[k].deadline = -1; }
   progress(); yieldPoint();
   return 0;
@@ -361,6 +369,7 @@ int __wrap_pthread_cond_signal(pthread_cond_t* c) {
 int __wrap_pthread_cond_broadcast(pthread_cond_t* c) {
   if (!g_active || tl_id < 0) return __real_pthread_cond_broadcast(c);
   findC(c);
+  TRACE("cond_broadcast %p", (void*)c);
   for (int i = 0; i < nth; ++i) if (th[i].state == T_BLOCKED && th[i].wait == W_COND && th[i].obj == c) { th[i].state = T_RUNNABLE; th[i].deadline = -1; }
   progress(); yieldPoint();
   return 0;
